@@ -5,7 +5,7 @@
 (*  unit-for-unit identical to the corresponding direct encoding, otherwise  *)
 (*  the decoded units (harness-side compression of identical arrays).        *)
 (*  esc = the escape texts the harness fed to JSON::Parse (checked too).     *)
-EXTENDS QUnicode, Json, IOUtils
+EXTENDS Integers, QUnicode, Json, IOUtils
 Tr == ndJsonDeserialize(IOEnv.TRACE)
 VARIABLE l
 Same(x, direct, want) == IF x = <<>> THEN direct = want ELSE x = want
@@ -16,7 +16,11 @@ EventOK(e) ==
     /\ \A i \in 1..3 : Same(e.j[i], e.d8, UTF8(e.c))        \* upper, lower, inside a longer string
     /\ \A i \in 4..6 : Same(e.j[i], e.d16, UTF16(e.c))
     /\ \A i \in 7..9 : Same(e.j[i], e.d32, UTF32(e.c))
-OInit == l \in 1..Len(Tr)
-ONext == UNCHANGED l
-Check == EventOK(Tr[l]) \/ PrintT(<<"MISMATCH", l>>)
+\* one state per event; events are reached through NB block states so that all TLC workers share the evaluation
+NB == 64
+BSize == (Len(Tr) + NB - 1) \div NB
+OInit == l = 0
+ONext == \/ l = 0 /\ l' \in {0 - b : b \in 1..NB}
+         \/ l < 0 /\ l' \in {i \in (((0 - l) - 1) * BSize + 1)..((0 - l) * BSize) : i <= Len(Tr)}
+Check == l <= 0 \/ EventOK(Tr[l]) \/ PrintT(<<"MISMATCH", l>>)
 =============================================================================
